@@ -73,6 +73,17 @@ def cmp_interest(got, r):
     d += cmp_siginfo(s.signature_info, r['sig_info'])
     if bl(s.signature_value_buf) != r['sig_value']:
         d.append('sig_value')
+    # pointers handed to verifiers (only where the packet format defines them: one digest component at most,
+    # parameters or SignatureInfo present)
+    ndig = sum(1 for c in r['name'] if rc.comp_parts(c)[0] == 2)
+    if ndig <= 1:
+        if bl(s.digest_value_buf) != r['digest_value']:
+            d.append('digest_value_ptr')
+        if r['app_param'] is not None and b''.join(bytes(x) for x in (s.digest_covered_part or [])) != r['digest_portion']:
+            d.append('digest_covered_part')
+        if r['signed_portion'] is not None and r['sig_info'] is not None and \
+                b''.join(bytes(x) for x in (s.signature_covered_part or [])) != r['signed_portion']:
+            d.append('signature_covered_part')
     return d
 
 
@@ -89,6 +100,8 @@ def cmp_data(got, r):
     d += cmp_siginfo(s.signature_info, r['sig_info'])
     if bl(s.signature_value_buf) != r['sig_value']:
         d.append('sig_value')
+    if r['signed_portion'] is not None and b''.join(bytes(x) for x in (s.signature_covered_part or [])) != r['signed_portion']:
+        d.append('signature_covered_part')
     return d
 
 
@@ -264,6 +277,9 @@ def corpus(ctx, rng):
         kind = rng.choice(['none', 'none', 'digest-int', 'hmac', 'ecdsa256', 'var'])
         signer, _ = pkts.make_signer(rng, kind)
         app = None if rng.random() < 0.4 else gen.rand_bytes(rng, rng.choice([0, 3, 40, 255]))
+        if (app is not None or signer is not None) and rng.random() < 0.4:
+            comps = list(comps)
+            comps.insert(rng.randint(0, len(comps)), rc.comp(2, bytes(32)))      # digest placeholder not in the last position
         out.append(('interest', bytes(make_interest(comps, prm, app, signer))))
     # reference-encoded (shapes the library encoder never emits)
     for _ in range(ctx.n(8, 30)):
